@@ -5,6 +5,15 @@
 //!
 //!   c20-miri sp     single-producer scenarios (one pushing thread; stop() / drop from other threads)
 //!   c20-miri mp     two producers on one ring (shared Arc and clones)
+//!   c20-miri td     teardown: the consumer abandons the track after k receives (k = 0: never calls
+//!                   recv), or stops and abandons it, or stalls until the producers are done; the
+//!                   creating thread drops its source and track handles at once, so the last handle
+//!                   goes with samples still queued (capacity 1 / 2 / 4 exactly full, partly filled,
+//!                   empty; one and two producers) and SpscRing::drop has to release them. Payloads
+//!                   are `Bytes::from_owner` over a heap-backed owner that counts its drops: on top
+//!                   of Miri's own leak check at exit and its double-free / use-after-free detection
+//!                   the run asserts that every payload created was released exactly once
+//!                   (C20.release). No -Zmiri-ignore-leaks anywhere.
 // cargo merges c20/.cargo/config.toml (which turns the hooks on) into this crate's configuration;
 // the runner overrides it through the RUSTFLAGS environment variable. Refuse to build otherwise.
 #[cfg(rustrtc_verif)]
@@ -151,6 +160,194 @@ fn two_producers(cap: usize, n: u32, shared: bool) {
     judge(&got, eos, 2, "two_producers");
 }
 
+// ---------------------------------------------------------------------------------------------
+// teardown with samples still queued
+// ---------------------------------------------------------------------------------------------
+mod tracked {
+    use std::sync::atomic::{AtomicU32, Ordering};
+    const P: usize = 4;
+    const N: usize = 32;
+    #[allow(clippy::declare_interior_mutable_const)]
+    const Z: AtomicU32 = AtomicU32::new(0);
+    #[allow(clippy::declare_interior_mutable_const)]
+    const ROW: [AtomicU32; N] = [Z; N];
+    static CREATED: [[AtomicU32; N]; P] = [ROW; P];
+    static RELEASED: [[AtomicU32; N]; P] = [ROW; P];
+
+    /// owner of one payload; the bytes live on the heap, so a read through a stale `Bytes` is a
+    /// use after free Miri sees
+    pub struct Owner {
+        p: u32,
+        i: u32,
+        data: Vec<u8>,
+    }
+    impl AsRef<[u8]> for Owner {
+        fn as_ref(&self) -> &[u8] {
+            &self.data
+        }
+    }
+    impl Drop for Owner {
+        fn drop(&mut self) {
+            RELEASED[self.p as usize][self.i as usize].fetch_add(1, Ordering::SeqCst);
+        }
+    }
+    pub fn payload(p: u32, i: u32) -> bytes::Bytes {
+        CREATED[p as usize][i as usize].fetch_add(1, Ordering::SeqCst);
+        bytes::Bytes::from_owner(Owner { p, i, data: super::payload(p, i) })
+    }
+    pub fn reset() {
+        for p in 0..P {
+            for i in 0..N {
+                CREATED[p][i].store(0, Ordering::SeqCst);
+                RELEASED[p][i].store(0, Ordering::SeqCst);
+            }
+        }
+    }
+    /// every thread has ended and every handle is gone: each payload created was released once
+    pub fn check(what: &str) -> (u32, u32) {
+        let (mut created, mut released) = (0, 0);
+        for p in 0..P {
+            for i in 0..N {
+                let (c, r) = (CREATED[p][i].load(Ordering::SeqCst), RELEASED[p][i].load(Ordering::SeqCst));
+                assert!(c <= 1, "harness: p{p}#{i} created {c} times in {what}");
+                assert!(r <= c, "C20.release: released twice: p{p}#{i} created {c} time(s), released {r} time(s) in {what}");
+                assert!(r == c, "C20.release: leaked: p{p}#{i} was never released after every handle was dropped in {what}");
+                created += c;
+                released += r;
+            }
+        }
+        (created, released)
+    }
+}
+
+fn tracked_sample(p: u32, i: u32) -> MediaSample {
+    MediaSample::Audio(AudioFrame {
+        rtp_timestamp: (p << 16) | i,
+        clock_rate: 48000,
+        data: tracked::payload(p, i),
+        sequence_number: Some(i as u16),
+        payload_type: Some(96 + p as u8),
+        ..Default::default()
+    })
+}
+
+#[derive(Clone, Copy)]
+enum Push {
+    Send,
+    Try,
+    Many(u32),
+}
+
+#[derive(Clone, Copy, PartialEq)]
+enum Cons {
+    /// receive at most k samples, then drop the track handle
+    Abandon(u32),
+    /// the same, with stop() before the handle goes
+    StopThenAbandon(u32),
+    /// receive k, wait until every producer thread is done, drain to end-of-stream
+    StallThenDrain(u32),
+}
+
+/// The creating thread lets go of its source and its track handle right after spawning; the
+/// last handle (whichever thread Miri's scheduler makes last) tears the ring down.
+fn teardown(what: &str, cap: usize, producers: &[&[Push]], cons: Cons) {
+    use std::sync::atomic::{AtomicUsize, Ordering};
+    tracked::reset();
+    let np = producers.len();
+    let (src, track, _fb) = sample_track(MediaKind::Audio, cap);
+    let done = Arc::new(AtomicUsize::new(0));
+    let consumer = {
+        let (t, done) = (track.clone(), done.clone());
+        std::thread::spawn(move || {
+            let mut got: Vec<u32> = vec![];
+            let eos;
+            let take = |t: &SampleStreamTrack, limit: Option<u32>, got: &mut Vec<u32>| -> bool {
+                let mut n = 0;
+                while limit.map(|k| n < k).unwrap_or(true) {
+                    assert!(got.len() <= 64, "C20.once: more receives than pushes: {got:?}");
+                    match futures::executor::block_on(t.recv()) {
+                        Ok(MediaSample::Audio(f)) => {
+                            let (p, i) = (f.rtp_timestamp >> 16, f.rtp_timestamp & 0xffff);
+                            assert_eq!(&f.data[..], &payload(p, i)[..], "C20.identity: payload of p{p}#{i} differs from what was pushed");
+                            got.push(f.rtp_timestamp);
+                            n += 1;
+                        }
+                        Ok(_) => panic!("C20.identity: video sample on an audio track"),
+                        Err(MediaError::EndOfStream) => return true,
+                        Err(e) => panic!("C20.eos: recv ended with {e:?}"),
+                    }
+                }
+                false
+            };
+            match cons {
+                Cons::Abandon(k) => eos = take(&t, Some(k), &mut got),
+                Cons::StopThenAbandon(k) => {
+                    eos = take(&t, Some(k), &mut got);
+                    t.stop();
+                }
+                Cons::StallThenDrain(k) => {
+                    if !take(&t, Some(k), &mut got) {
+                        while done.load(Ordering::SeqCst) < np {
+                            std::thread::yield_now();
+                        }
+                        eos = take(&t, None, &mut got);
+                        assert!(eos, "C20.eos");
+                    } else {
+                        eos = true;
+                    }
+                }
+            }
+            drop(t);
+            (got, eos)
+        })
+    };
+    let hs: Vec<_> = producers
+        .iter()
+        .enumerate()
+        .map(|(p, ops)| {
+            let (s, ops, done) = (src.clone(), ops.to_vec(), done.clone());
+            std::thread::spawn(move || {
+                let p = p as u32;
+                let mut i = 0u32;
+                for op in ops {
+                    match op {
+                        Push::Send => {
+                            s.send(tracked_sample(p, i)).unwrap();
+                            i += 1;
+                        }
+                        Push::Try => {
+                            let _ = s.try_send(tracked_sample(p, i));
+                            i += 1;
+                        }
+                        Push::Many(n) => {
+                            s.send_many((i..i + n).map(|j| tracked_sample(p, j))).unwrap();
+                            i += n;
+                        }
+                    }
+                }
+                drop(s);
+                done.fetch_add(1, Ordering::SeqCst);
+            })
+        })
+        .collect();
+    drop(src);
+    drop(track);
+    for h in hs {
+        h.join().unwrap();
+    }
+    let (got, _eos) = consumer.join().unwrap();
+    let mut seen = std::collections::BTreeSet::new();
+    for g in &got {
+        assert!(seen.insert(*g), "C20.once: p{}#{} delivered twice in {what}: {got:?}", g >> 16, g & 0xffff);
+    }
+    for p in 0..np as u32 {
+        let mine: Vec<u32> = got.iter().filter(|g| *g >> 16 == p).map(|g| g & 0xffff).collect();
+        assert!(mine.windows(2).all(|w| w[0] < w[1]), "C20.order: producer {p} reordered in {what}: {mine:?}");
+    }
+    let (created, released) = tracked::check(what);
+    assert_eq!(created, released);
+}
+
 fn main() {
     match std::env::args().nth(1).as_deref() {
         Some("sp") => {
@@ -167,8 +364,24 @@ fn main() {
             two_producers(16, 3, true);
             println!("c20-miri mp: ok");
         }
+        Some("td") => {
+            use Push::*;
+            // nobody receives: the fill level at teardown is fixed by the pushes
+            teardown("cap1 exactly full", 1, &[&[Send, Send]], Cons::Abandon(0));
+            teardown("cap2 exactly full", 2, &[&[Send, Send, Send]], Cons::Abandon(0));
+            teardown("cap4 exactly full", 4, &[&[Many(3), Send, Send]], Cons::Abandon(0));
+            teardown("cap2 full, try_send refused", 2, &[&[Try, Try, Try]], Cons::Abandon(0));
+            teardown("cap4 partly filled", 4, &[&[Send, Try]], Cons::Abandon(0));
+            teardown("cap2 empty", 2, &[&[]], Cons::Abandon(0));
+            teardown("cap2 two producers full", 2, &[&[Send, Send], &[Send, Try]], Cons::Abandon(0));
+            // the consumer takes one sample while the producer overflows: any fill level, wrapped ring
+            teardown("cap2 abandon after 1", 2, &[&[Send, Send, Send, Try]], Cons::Abandon(1));
+            teardown("cap2 stop then abandon", 2, &[&[Send, Send, Send]], Cons::StopThenAbandon(1));
+            teardown("cap1 stall then drain", 1, &[&[Send, Send, Send]], Cons::StallThenDrain(0));
+            println!("c20-miri td: ok");
+        }
         _ => {
-            eprintln!("usage: c20-miri <sp|mp>");
+            eprintln!("usage: c20-miri <sp|mp|td>");
             std::process::exit(2);
         }
     }
